@@ -276,6 +276,11 @@ pub fn time(rng: &mut Rng) -> NaiveTime {
     let h = rng.below(24) as u32;
     let m = rng.below(60) as u32;
     let s = rng.below(60) as u32;
+    if rng.chance(1, 16) {
+        // a leap second: chrono keeps `hh:mm:60[.f]` as second 59 with a nanosecond field of 10^9 or more; both
+        // decoders accept such texts, so these Times are constructible and every encoder must cope with them
+        return NaiveTime::from_hms_nano_opt(h, m, 59, 1_000_000_000 + subsec(rng)).unwrap();
+    }
     NaiveTime::from_hms_nano_opt(h, m, s, subsec(rng)).unwrap()
 }
 
